@@ -27,7 +27,7 @@ def check(run):
     thorough = run.tier == "thorough"
     models = ["Termination_MC.cfg"] + (["Termination_MCfine.cfg", "Termination_MCbig.cfg", "Termination_Live.cfg"] if thorough else [])
     tc.parallel_tlc(run, "Termination", models, WEAK, coverage=thorough, workers=6 if thorough else 4)
-    behs = tc.generate(run, NSIM[run.tier][0], NSIM[run.tier][1], with_term_sys=True, with_drain_sys=thorough)
+    behs = tc.generate(run, NSIM[run.tier][0], NSIM[run.tier][1], with_term_sys=True, with_drain_sys=thorough, with_fine=True)
     files = tc.record(run, behs)
     info, total = tc.scan(files, len(behs))
     for b, k in zip(behs, info):
